@@ -14,8 +14,8 @@ import impl
 RULE = ("fixed families at scale: reflection-free cascade of N two-ports with exact unit-modulus rational phases "
         "(closed form: product), cascade of N weakly reflecting lossy two-ports (reference: dense numpy network solve), "
         "n x n mesh of beam splitters and phase shifters (unitarity + dense reference), lossy resonant chain of "
-        "mirror-waveguide cells, d-level nest of a two-port, the lossy cascade cut into three large sub-solvers, a chain of phase shifters each with its own parameter name; sizes quick 500 / 300 / 6x6 / 100 / 40 / 600 / 150, thorough "
-        "2000 / 1000 / 14x14 / 400 / 60 / 3000 / 1000; distinct = family x size; all non-trivial")
+        "mirror-waveguide cells, d-level nest of a two-port, the lossy cascade cut into three large sub-solvers, a chain of phase shifters each with its own parameter name, meshes of directly connected couplers (10 and 13 modes; thorough up to 24); sizes quick 500 / 300 / 10x10 / 100 / 40 / 600 / 150, thorough "
+        "2000 / 1000 / 20x20 / 400 / 60 / 3000 / 1000; distinct = family x size; all non-trivial")
 TRUSTED = ["numpy dense solve of the global network system as reference at scale", "IEEE-754 accumulation behaviour is measured, not proved"]
 ASSUMPTIONS = ["relative accuracy target 1e-9"]
 EXPLANATION = "exact size-generic closed form / boundedness / definedness as Lean theorems; floating-point accuracy at scale is measured"
@@ -116,7 +116,12 @@ def family_weak_reflection(ctx, n, rng):
     return max(rel_err(T, R), float(np.max(np.abs(T - R))) / max(1e-12, float(np.max(np.abs(R[0, 0])))) * 0.0)
 
 
-def family_mesh(ctx, n, rng):
+def family_coupler_mesh(ctx, n, rng):
+    """the same mesh with the couplers wired directly to each other (no element between them): parts with many pins"""
+    return family_mesh(ctx, n, rng, dense=True)
+
+
+def family_mesh(ctx, n, rng, dense=False):
     """n x n rectangular mesh: columns of beam splitters between neighbouring rails with a phase shifter on one rail"""
     L = impl.lk()
     r = np.random.default_rng(rng.randrange(2 ** 32))
@@ -144,6 +149,8 @@ def family_mesh(ctx, n, rng):
                 sol.connect(sts[pc], pp, sts[c], pin_in)
                 links.append((pc, pp, c, pin_in))
                 rails[rail] = (c, pin_out)
+            if dense:
+                continue
             p = add(L.PhaseShifter(param_name=f"PS{col}x{k}", param_default=float(r.uniform(-1, 1))), ["a0", "b0"])
             pc, pp = rails[k]
             sol.connect(sts[pc], pp, sts[p], "a0")
@@ -273,13 +280,17 @@ def run(ctx):
     q = ctx.tier == "quick" and ctx.scale == 1
     plan = [("cascade", family_cascade, 500 if q else 2000), ("lossy-cascade", family_lossy_cascade, 300 if q else 1000),
             ("weak-reflection-cascade", family_weak_reflection, 400 if q else 2000),
-            ("mesh", family_mesh, 6 if q else 14), ("resonant-chain", family_resonant, 100 if q else 400),
+            ("mesh", family_mesh, 10 if q else 20), ("resonant-chain", family_resonant, 100 if q else 400),
             ("nest", family_nest, 40 if q else 60), ("blocked-cascade", family_blocked, 600 if q else 3000),
-            ("many-parameters", family_many_params, 150 if q else 1000)]
+            ("many-parameters", family_many_params, 150 if q else 1000), ("coupler-mesh", family_coupler_mesh, 13 if q else 24)]
     import sys
     measured = {}
     for name, fn, size in plan:
         sizes = [max(2, size // 10), size]
+        if name == "mesh":
+            sizes = [3, 10] if q else [10, 13, 16, 20]      # wide structures: more than eight pins on one part
+        if name == "coupler-mesh":
+            sizes = [10, 13] if q else [10, 13, 16, 17, 18, 20, 24]
         for s in sizes:
             ctx.case((name, s), tags=[f"family:{name}"], sample={"family": name, "size": s})
             rep = {"family": name, "size": s, "seed": ctx.seed}
@@ -301,7 +312,7 @@ def run(ctx):
 def replay(ctx, data):
     rng = ctx.subrng("c20")
     fn = {"cascade": family_cascade, "lossy-cascade": family_lossy_cascade, "mesh": family_mesh, "weak-reflection-cascade": family_weak_reflection,
-          "resonant-chain": family_resonant, "nest": family_nest, "blocked-cascade": family_blocked, "many-parameters": family_many_params}[data["family"]]
+          "resonant-chain": family_resonant, "nest": family_nest, "blocked-cascade": family_blocked, "many-parameters": family_many_params, "coupler-mesh": family_coupler_mesh}[data["family"]]
     try:
         out = fn(ctx, data["size"], rng)
         err = out[0] if isinstance(out, tuple) else out
